@@ -84,8 +84,10 @@ func newAlphabetList(fsChain, mainnet keys.PublicKeys) (keys.PublicKeys, error) 
 }
 
 // updateInnerRing function removes `before` keys from `innerRing` and adds
-// `after` keys in the list. If the length of `before` and `after` is not the same,
-// the function returns errNotEqualLen.
+// `after` keys in the list. A key is never added twice: `after` key that is
+// already in `innerRing` (e.g. non-alphabet inner ring member that becomes an
+// alphabet one) is kept once. If the length of `before` and `after` is not the
+// same, the function returns errNotEqualLen.
 func updateInnerRing(innerRing, before, after keys.PublicKeys) (keys.PublicKeys, error) {
 	lnBefore := len(before)
 	if lnBefore != len(after) {
@@ -99,11 +101,15 @@ loop:
 	for i := range innerRing {
 		for j := range before {
 			if innerRing[i].Equal(before[j]) {
-				result = append(result, after[j])
+				if !result.Contains(after[j]) {
+					result = append(result, after[j])
+				}
 				continue loop
 			}
 		}
-		result = append(result, innerRing[i])
+		if !result.Contains(innerRing[i]) {
+			result = append(result, innerRing[i])
+		}
 	}
 
 	return result, nil
